@@ -117,7 +117,7 @@ PROPS = {
     "C01": dict(
         level="exploration",
         specs=["specs.c03_route", "specs.c04_minimise"],       # premises: the router's dead-hardware test, every contract of the minimisers
-        bounded=["bounded.c01_delivery"],
+        bounded=["bounded.c01_delivery", "bounded.c04_tables"],      # (c04_tables: the bounded layer of a premise, the minimisers)
     ),
     "C17": dict(
         level="proof",
